@@ -377,6 +377,24 @@ Definition has (x f : Z) : bool := Z.land x f =? f.
 Definition add (x f : Z) : Z := Z.lor x f.
 Definition remove (x f : Z) : Z := Z.ldiff x f.
 
+(* {{$this}} := firstLower .TypeName = strings.ToLower(TypeName[:1]): the receiver name *)
+Definition lower_ascii (c : ascii) : ascii :=
+  let n := nat_of_ascii c in
+  if Nat.leb 65 n && Nat.leb n 90 then ascii_of_nat (n + 32) else c.
+Definition recv (T : string) : string :=
+  match T with
+  | String c _ => String (lower_ascii c) EmptyString
+  | EmptyString => EmptyString
+  end.
+(* K_bit_receiver_shadow: in the -bit String() the remainder variable is called
+   {{$this}}_ ; the loop counter is i_ and the loop's flag variable is v_.  For a
+   type whose name starts with I/i the counter shadows the remainder (`i_.Has`
+   on an int: does not compile); for V/v the flag variable shadows it (compiles,
+   wrong result). *)
+Definition shadow_i (T : string) : bool := String.eqb (recv T) "i".
+Definition shadow_v (T : string) : bool := String.eqb (recv T) "v".
+Definition recv_ok (T : string) : bool := negb (shadow_i T) && negb (shadow_v T).
+
 Inductive errk := ENotString | ENotFound | EBadType.
 
 (* what database/sql may hand to Scan *)
@@ -422,6 +440,12 @@ Section Generated.
     | None =>
         if (x <? 0) || (x >? t_max) then dec x
         else if f_bit (g_flags g) then
+          if shadow_v (g_type g) then
+            (* `v_ := values[i_]` inside the loop shadows the remainder `v_ := v`: every non-zero
+               flag "has itself" and is printed, the remainder tested after the loop is still x *)
+            let buf := fold_left (fun b v => if v =? 0 then b else b ++ ", " ++ name_of v) t_values "" in
+            if (x =? 0) && negb (String.eqb buf "") then drop 2 buf else dec x
+          else
           let '(x_, buf) := bit_loop t_values x "" in
           if (x_ =? 0) && negb (String.eqb buf "") then drop 2 buf else dec x
         else dec x
@@ -496,7 +520,7 @@ Section Generated.
 
   (* bit_map_bug: K_bit_map is present (the template references _t_map) *)
   Definition compiles (bit_map_bug : bool) : bool :=
-    guard_ok && keys_ok && negb (f_bit (g_flags g) && bit_map_bug).
+    guard_ok && keys_ok && negb (f_bit (g_flags g) && (bit_map_bug || shadow_i (g_type g))).
 End Generated.
 
 (* ------------------------------------------------ grammar well-formedness -- *)
